@@ -765,7 +765,8 @@ func (r *Reconciler) reconcileApply(ctx context.Context, proposal *configapi.Pro
 			return controller.Result{}, err
 		}
 		return controller.Result{}, nil
-	case configapi.ProposalApplyPhase_APPLIED:
+	case configapi.ProposalApplyPhase_APPLIED, configapi.ProposalApplyPhase_FAILED:
+		// A failed apply moves the applied cursor as a successful one does: the successor waits for it
 		if proposal.Status.NextIndex != 0 {
 			return controller.Result{
 				Requeue: controller.NewID(proposalstore.NewID(proposal.TargetID, proposal.Status.NextIndex)),
